@@ -35,7 +35,7 @@ def run(ck):
     cases = []
     n = 6 if quick else 60
     for i in range(n):
-        N = rng.choice([48, 56])
+        N = rng.choice([48, 56]) if i % 2 else rng.choice([42, 46, 50])   # both residues of N mod 4 (the box midpoint arithmetic differs)
         T = [t for t in PROFILES if t != "pointsource"][i % 6]
         p = rand_params(rng, T, N)
         p["flux"] = abs(p["flux"])
@@ -64,13 +64,15 @@ def run(ck):
     ck.extra["worst_deviation_fraction_of_peak"] = worst
     ck.oblige("oracle:theta+pi / ellip=0 / transpose / mirror / integer translation on the real renderers", "correspondence",
               not oracle_bad, json.dumps(oracle_bad[0][1]["oracle"][:2]) if oracle_bad else "")
-    ck.rule = "translator validation at random float64 points; oracle: even frames 48/56, six extended/composite profile types, three renderers, asymmetric well-sampled PSFs (FWHM 4 px)"
+    ck.rule = "translator validation at random float64 points; oracle: even frames 42/46/50 (N mod 4 = 2) and 48/56 (N mod 4 = 0), six extended/composite profile types, three renderers, asymmetric well-sampled PSFs (FWHM 4 px)"
     ck.trusted += ["Coq 8.16.1 kernel; Interval; Reals axioms", "translator unit Formulas (validated numerically each run)",
-                   "lifting of the pointwise laws to images (FFT convolution commutes with transpose / mirror / shift when the PSF is transformed alike; Nyquist remainder for even N) is NOT proved: "
-                   "covered only by the implementation-side oracle"]
+                   "lifting of the pointwise laws to images: proved for the convolution step under whole-pixel translation and transposition (circular convolution, Proofs/ConvSymmetry.v; C03 proves "
+                   "that the FFT product computes it); NOT proved for the mirror (the X -> N-1-X reflection is the group negation composed with a one-pixel shift that the PSF centring "
+                   "absorbs) nor for the Nyquist remainder of the band-limited Fourier kernels at even N: covered only by the implementation-side oracle"]
     ck.explanation = ("Proved pointwise for all parameters, for the analytic Sersic kernel, the real-space Gaussians and the Fourier Gaussians: theta+pi invariance; independence of theta at ellip=0 (q=1); "
                       "transpose (swap axes and centre, theta->pi/2-theta); mirror (X->N-1-X, xc->N-1-xc, theta->-theta; in Fourier space FX->-FX); translation (real-space kernels move, Fourier "
-                      "components pick up exp(-2 pi i (FX da + FY db))); theta+k*pi for every k.")
+                      "components pick up exp(-2 pi i (FX da + FY db))); theta+k*pi for every k.  Image level: for every N and all arrays, circular convolution with the PSF commutes with "
+                      "whole-pixel translations of the scene and with transposition of scene and PSF.")
     if ck.broken():
         if oracle_bad:
             c, r = oracle_bad[0]
